@@ -3045,8 +3045,10 @@ static void PrintSymbolList_AddOut(char* s, TListContext* pContext) {
     int AddVisibleLen = visible_strlen(s), AddLen = strlen(s);
 
     if (AddVisibleLen + pContext->ZeilenrestVisibleLen > pContext->Width) {
-        pContext->Zeilenrest.p_str[pContext->ZeilenrestLen - 1] = '\0';
-        WrLstLine(pContext->Zeilenrest.p_str);
+        if (pContext->ZeilenrestLen > 0) {
+            pContext->Zeilenrest.p_str[pContext->ZeilenrestLen - 1] = '\0';
+            WrLstLine(pContext->Zeilenrest.p_str);
+        }
         as_dynstr_copy_c_str(&pContext->Zeilenrest, s);
         pContext->ZeilenrestLen        = AddLen;
         pContext->ZeilenrestVisibleLen = AddVisibleLen;
